@@ -365,7 +365,76 @@ def accuracy_failures(n, seed, limit=3):
     return fails, worst
 
 
+def length_failures(n, seed, limit=3):
+    """[B] the Euclidean definitions in doubles: beam vectors and lengths of a beamline that sits anywhere -- the same geometry translated
+    by 0, 1e3 and 1e6 times its size, per-pixel positions -- against exact rational arithmetic.  Differences of positions are correctly
+    rounded and norms lose a few units in the last place: 1e-13 relative to the length itself is the bound."""
+    import numpy as np
+    import scipp as sc
+    from fractions import Fraction as Fr
+    from vf.realrun import real_module
+    bl = real_module('conversion.beamline')
+    rng = np.random.default_rng(seed)
+    fails = []
+
+    def exact_norm(v):
+        return float(np.sqrt(np.float64(sum(Fr(x) * Fr(x) for x in v))) ) if False else sum(Fr(x) * Fr(x) for x in v)
+
+    def close(got, want_sq):
+        # compare squares exactly: got^2 vs the exact squared length
+        g = Fr(float(got))
+        return abs(g * g - want_sq) <= Fr(2, 10 ** 13) * want_sq
+    for i in range(n):
+        size = 10.0 ** rng.uniform(-2, 2)
+        offset = rng.normal(size=3) * size * [0.0, 1e3, 1e6][i % 3]
+        src, smp = offset + rng.normal(size=3) * size, offset + rng.normal(size=3) * size
+        pix = offset + rng.normal(size=(3, 3)) * size
+        unit = ['m', 'mm'][i % 2]
+        V = lambda a: sc.vector(a, unit=unit)
+        P = sc.vectors(dims=['pixel'], values=pix, unit=unit)
+        desc = {'id': f'len{i}', 'index': i, 'seed': seed, 'kind': 'lengths', 'offset_over_size': [0.0, 1e3, 1e6][i % 3]}
+        prob = None
+        try:
+            inc = bl.straight_incident_beam(source_position=V(src), sample_position=V(smp))
+            sca = bl.straight_scattered_beam(position=P, sample_position=V(smp))
+            l1 = bl.L1(incident_beam=inc)
+            l2 = bl.L2(scattered_beam=sca)
+            lt = bl.total_straight_beam_length_no_scatter(source_position=V(src), position=P)
+            ltot = bl.total_beam_length(L1=l1, L2=l2)
+        except Exception as e:  # noqa: BLE001
+            fails.append({**desc, 'problem': f'raised {type(e).__name__}: {e}'[:300]})
+            continue
+        if not np.array_equal(inc.value, smp - src) or not np.array_equal(sca.values, pix - smp):
+            prob = 'beam vectors are not the (correctly rounded) differences of the positions'
+        elif not close(l1.value, sum(Fr(a) * Fr(a) for a in (smp - src))):
+            prob = f'L1 = {l1.value!r} is not |sample - source| to 1e-13'
+        else:
+            for k in range(3):
+                if not close(l2.values[k], sum(Fr(a) * Fr(a) for a in (pix[k] - smp))):
+                    prob = f'L2 of pixel {k} = {l2.values[k]!r} is not |position - sample| to 1e-13'
+                    break
+                if not close(lt.values[k], sum((Fr(a) - Fr(b)) ** 2 for a, b in zip(pix[k], src))):
+                    prob = f'Ltotal without scattering of pixel {k} = {lt.values[k]!r} is not |position - source| to 1e-13 (positions {offset_ratio(i)} sizes away from the origin)'
+                    break
+                if abs(ltot.values[k] - (l1.value + l2.values[k])) > 4e-16 * ltot.values[k]:
+                    prob = 'Ltotal is not L1 + L2'
+                    break
+        if prob:
+            fails.append({**desc, 'problem': prob})
+            if len(fails) >= limit:
+                break
+    return fails
+
+
+def offset_ratio(i):
+    return ['0', '1e3', '1e6'][i % 3]
+
+
 def accuracy_bounded(chk):
+    nl = 300 if chk.tier == 'quick' else 6000
+    lf = length_failures(nl, 77 + chk.seed)
+    chk.bounded_check('lengths-anywhere', 'real straight_incident_beam / straight_scattered_beam / L1 / L2 / total_beam_length / total_straight_beam_length_no_scatter vs exact rationals',
+                      f'{nl} beamlines (3 pixels each) translated by 0, 1e3, 1e6 times their size, m and mm; bound 1e-13 relative', nl, lf)
     # the angle of the beams GIVEN: also when a beam object was changed in place since the previous call (no answer remembered by reference)
     from contracts import C09
     stale = [f for f in C09.stale_result_failures() if f['function'] in ('two_theta', 'L2', 'straight_scattered_beam')]
@@ -379,6 +448,11 @@ def accuracy_bounded(chk):
 
 
 def replay(rec):
+    f_ = rec.get('meta', {}).get('replay') or {}
+    if f_.get('kind') == 'lengths' or '/bounded/lengths-anywhere/' in rec['obligation']:
+        fails = length_failures(int(f_.get('index', 299)) + 1, int(f_.get('seed', 77)), limit=10 ** 6)
+        hit = [x for x in fails if 'index' not in f_ or x['index'] == f_['index']]
+        return {'reproduced': bool(hit), 'cases': hit[:1]}
     name = rec['obligation']
     if '/bounded/beams-changed-in-place' in name:
         from contracts import C09
